@@ -42,6 +42,7 @@ type panicState struct {
 	where   string // function + file:line where it was raised
 	site    string // function :: source text of the line (stable key)
 	stack   []string
+	fns     []string
 }
 
 type Finding struct {
@@ -50,6 +51,7 @@ type Finding struct {
 	Site  string            `json:"site"`
 	Msg   string            `json:"msg"`
 	Stack []string          `json:"stack,omitempty"`
+	Fns   []string          `json:"fns,omitempty"` // functions the panic may be attributed to (raising function, merged callees)
 	Model map[string]uint64 `json:"model,omitempty"`
 	NoModel bool            `json:"no_model,omitempty"`
 }
@@ -98,6 +100,9 @@ type Machine struct {
 	maxPaths     int
 	aborted      string
 	fullPaths    int
+	opaqueLocs   map[string]*Loc
+	pendingFns   []string
+	noShortCircuit bool
 }
 
 type forkReq struct{ c *T }
@@ -110,7 +115,7 @@ type unsupported struct{ msg string }
 
 func NewMachine(prog *ssa.Program) *Machine {
 	m := &Machine{prog: prog, sol: NewSolver(), globals: map[*ssa.Global]*Loc{}, assumed: map[*T]bool{}, concs: map[*T]uint64{},
-		stubsUsed: map[string]int{}, assertsSeen: map[string]int{}, fnsEncoded: map[*ssa.Function]bool{}, allocated: BV(64, 0), findings: map[string]*Finding{}, intr: map[string]func(*Machine, *Frame, []Value, ssa.Instruction, bool) (Value, int){}, maxSteps: 60000, opaque: map[string]Iface{}}
+		opaqueLocs: map[string]*Loc{}, stubsUsed: map[string]int{}, assertsSeen: map[string]int{}, fnsEncoded: map[*ssa.Function]bool{}, allocated: BV(64, 0), findings: map[string]*Finding{}, intr: map[string]func(*Machine, *Frame, []Value, ssa.Instruction, bool) (Value, int){}, maxSteps: 60000, opaque: map[string]Iface{}}
 	registerIntrinsics(m)
 	return m
 }
@@ -149,6 +154,74 @@ func (m *Machine) jump(fr *Frame, b *ssa.BasicBlock) {
 	fr.prev, fr.block, fr.pc = fr.block, b, 0
 	m.trail = append(m.trail, func() { fr.block, fr.prev, fr.pc = ob, op, opc })
 }
+func (m *Machine) jumpFrom(fr *Frame, pred, b *ssa.BasicBlock) {
+	ob, op, opc := fr.block, fr.prev, fr.pc
+	fr.prev, fr.block, fr.pc = pred, b, 0
+	m.trail = append(m.trail, func() { fr.block, fr.prev, fr.pc = ob, op, opc })
+}
+
+func hasPhi(b *ssa.BasicBlock) bool {
+	if len(b.Instrs) == 0 {
+		return false
+	}
+	_, ok := b.Instrs[0].(*ssa.Phi)
+	return ok
+}
+
+// specBlock speculatively evaluates block b when it consists of side-effect-free instructions followed by an If
+// and has a single predecessor; returns the If's condition. Any fork, run-time check or unsupported construct
+// aborts the speculation (state restored).
+func (m *Machine) specBlock(fr *Frame, b *ssa.BasicBlock) (cond *T, ok bool) {
+	if len(b.Preds) != 1 || len(b.Instrs) == 0 || len(b.Instrs) > 12 {
+		return nil, false
+	}
+	last, isIf := b.Instrs[len(b.Instrs)-1].(*ssa.If)
+	if !isIf {
+		return nil, false
+	}
+	for _, in := range b.Instrs[:len(b.Instrs)-1] {
+		switch x := in.(type) {
+		case *ssa.BinOp, *ssa.IndexAddr, *ssa.Index, *ssa.Field, *ssa.FieldAddr, *ssa.Convert, *ssa.ChangeType, *ssa.Extract, *ssa.Slice, *ssa.DebugRef:
+		case *ssa.UnOp:
+			if x.Op == token.ARROW {
+				return nil, false
+			}
+		case *ssa.Call:
+			bi, isB := x.Call.Value.(*ssa.Builtin)
+			if !isB || (bi.Name() != "len" && bi.Name() != "cap") {
+				return nil, false
+			}
+		default:
+			return nil, false
+		}
+	}
+	mark := len(m.trail)
+	savedPos := m.curPos
+	defer func() {
+		if r := recover(); r != nil {
+			switch r.(type) {
+			case forkReq, concReq, raised, unsupported, unmergeable, pathEnd:
+				m.undo(mark)
+				m.curPos = savedPos
+				cond, ok = nil, false
+			default:
+				panic(r)
+			}
+		}
+	}()
+	ob, op, opc := fr.block, fr.prev, fr.pc
+	fr.prev, fr.block, fr.pc = fr.block, b, 0
+	m.trail = append(m.trail, func() { fr.block, fr.prev, fr.pc = ob, op, opc })
+	for fr.pc < len(b.Instrs)-1 {
+		m.step()
+	}
+	cv := m.get(fr, last.Cond).(*T)
+	// leave the registers set (SSA values of b are only used in blocks b dominates); restore the position
+	fr.block, fr.prev, fr.pc = ob, op, opc
+	m.curPos = savedPos
+	return cv, true
+}
+
 func (m *Machine) advance(fr *Frame) {
 	fr.pc++
 	m.trail = append(m.trail, func() { fr.pc-- })
@@ -208,7 +281,8 @@ func (m *Machine) check(ok *T, msg string) {
 type raised struct{}
 
 func (m *Machine) raiseRuntime(msg string) {
-	m.setPanic(&panicState{runtime: true, msg: msg, val: m.opaqueErr("runtime.Error"), where: m.where(), site: m.site(), stack: m.stackNames()})
+	m.setPanic(&panicState{runtime: true, msg: msg, val: m.opaqueErr("runtime.Error"), where: m.where(), site: m.site(), stack: m.stackNames(), fns: m.pendingFns})
+	m.pendingFns = nil
 	panic(raised{})
 }
 func (m *Machine) raiseValue(v Value) {
@@ -482,6 +556,9 @@ func (m *Machine) unwind() {
 	for {
 		if len(m.stack) == 0 {
 			m.reportSite("panic", m.pan.where, m.pan.site, m.pan.msg, m.pan.stack)
+			if f := m.findings["panic|"+m.pan.site+"|"+m.pan.msg]; f != nil && len(f.Fns) == 0 {
+				f.Fns = append(m.pan.fns, m.pan.stack...)
+			}
 			panic(pathEnd{"panic"})
 		}
 		fr := m.top()
@@ -492,7 +569,11 @@ func (m *Machine) unwind() {
 				fr.running = true
 				m.trail = append(m.trail, func() { fr.running = false })
 			}
+			depth := len(m.stack)
 			m.callValue(d.fn, d.args, nil, true)
+			if len(m.stack) == depth {
+				continue // the deferred call was an intrinsic that completed at once: keep unwinding
+			}
 			return
 		}
 		if fr.collect != nil {
@@ -500,7 +581,7 @@ func (m *Machine) unwind() {
 			for _, d := range m.decisions[fr.collect.decBase:] {
 				cond = And(cond, d)
 			}
-			fr.collect.outs = append(fr.collect.outs, outcome{cond: cond, pan: true, msg: m.pan.msg})
+			fr.collect.outs = append(fr.collect.outs, outcome{cond: cond, pan: true, msg: m.pan.msg, fns: append(append([]string{}, m.pan.fns...), m.pan.stack...)})
 			panic(pathEnd{"collected-panic"})
 		}
 		m.popFrame()
@@ -574,6 +655,10 @@ func (m *Machine) globalLoc(g *ssa.Global) *Loc {
 	// opaque sentinel for interface-typed globals of non-repo packages (errors etc.)
 	if _, isIface := et.Underlying().(*types.Interface); isIface && !isRepoPkg(g.Pkg) {
 		l.v = m.opaqueErr(g.Pkg.Pkg.Path() + "." + g.Name())
+	}
+	// pointer-typed globals of packages whose init is not executed (time.UTC, os.Stdout, ...): opaque non-nil objects
+	if pt, isPtr := et.Underlying().(*types.Pointer); isPtr && !isRepoPkg(g.Pkg) && !initPkgs[g.Pkg.Pkg.Path()] {
+		l.v = Ptr{L: &Loc{typ: pt.Elem(), v: BV(64, 0)}}
 	}
 	m.globals[g] = l
 	// not trail-logged: lazily created globals persist (their contents are trail-logged)
@@ -878,7 +963,10 @@ func (m *Machine) step() {
 	case *ssa.MapUpdate:
 		mv := m.get(fr, x.Map).(MapV)
 		k := m.get(fr, x.Key)
-		ks := keyString(k)
+		if mv.M == nil {
+			m.raiseRuntime("assignment to entry in nil map")
+		}
+		ks := keyStringSym(k)
 		mo := mv.M
 		old, had := mo.kv[ks]
 		if !had {
@@ -907,10 +995,30 @@ func (m *Machine) step() {
 		m.setReg(fr, x, m.typeAssert(x, m.get(fr, x.X).(Iface)))
 	case *ssa.If:
 		c := m.get(fr, x.Cond).(*T)
+		T, F := fr.block.Succs[0], fr.block.Succs[1]
+		predT, predF := fr.block, fr.block
+		if !c.IsC && !m.noShortCircuit && os.Getenv("VERIF_NOSC") == "" {
+			// short-circuit merging: `a || b`, `a && b` chains whose operand blocks are pure are decided as ONE condition
+			for iter := 0; iter < 12; iter++ {
+				if b, ok := m.specBlock(fr, F); ok && F.Succs[0] == T && !hasPhi(T) {
+					c = Or(c, b)
+					predF = F
+					F = F.Succs[1]
+					continue
+				}
+				if b, ok := m.specBlock(fr, T); ok && T.Succs[1] == F && !hasPhi(F) {
+					c = And(c, b)
+					predT = T
+					T = T.Succs[0]
+					continue
+				}
+				break
+			}
+		}
 		if m.decide(c) {
-			m.jump(fr, fr.block.Succs[0])
+			m.jumpFrom(fr, predT, T)
 		} else {
-			m.jump(fr, fr.block.Succs[1])
+			m.jumpFrom(fr, predF, F)
 		}
 		return
 	case *ssa.Jump:
@@ -943,6 +1051,23 @@ func (m *Machine) step() {
 		panic(unsupported{fmt.Sprintf("instruction %T", in)})
 	}
 	m.advance(fr)
+}
+
+var symKeySeq int
+
+// keyStringSym: like keyString, but a symbolic key gets a fresh entry name (lookups compare key terms).
+func keyStringSym(k Value) (s string) {
+	defer func() {
+		if r := recover(); r != nil {
+			if _, ok := r.(unsupported); ok {
+				symKeySeq++
+				s = fmt.Sprintf("sym#%d", symKeySeq)
+				return
+			}
+			panic(r)
+		}
+	}()
+	return keyString(k)
 }
 
 func keyString(k Value) string {
